@@ -27,6 +27,9 @@ def run(ck):
     ck.rule("C07-O1", "rotation fires whenever current > 0 and current + length + 1 > L (length = encoded record length); the added size counts at least the terminating newline")
     ck.rule("C07-O2", "the current size is size() of the open active file object, not a directory lookup or a position")
     ck.rule("C07-O3", "with L >= 1 every send evaluates the size check before the (single) write of the record")
+    ck.rule("C07-O4", "a size rotation can always move the full file away: the rotated name is new (next index = 1 + maximum over every existing entry), else the rename fails and the active file keeps growing")
+    from rules.c09 import next_index
+    next_index(ck, S, "C07-O4")
     cs = S.m["checkSizeRotation"]
     ri = S.m["rotateIfNeeded"]
     g = S.g(cs)
